@@ -97,6 +97,10 @@ func (c *Ctx) scratchDir() string {
 }
 
 func (c *Ctx) cleanup() {
+	if os.Getenv("VERIF_KEEP") != "" {
+		fmt.Println("scratch kept:", c.scratch)
+		return
+	}
 	for _, d := range c.scratch {
 		os.RemoveAll(d)
 	}
